@@ -134,6 +134,13 @@ def _minmax(f, es):
     return (pymin if f is sp.Min else pymax)(*es)
 
 
+def _dotsum(I, xs, ys):
+    acc = sp.Integer(0)
+    for x, y in zip(xs, ys):
+        acc = binop(I, ast.Add(), acc, binop(I, ast.Mult(), x, y))
+    return acc
+
+
 def wdep(I, v):
     """Does the value carry a (trailing) array axis, i.e. mention an array symbol?"""
     if isinstance(v, Vec):
@@ -218,7 +225,7 @@ def dict_key(I, d, key):
 
 
 def compare(I, op, a, b):
-    if isinstance(a, Vec) or isinstance(b, Vec):
+    if (isinstance(a, Vec) or isinstance(b, Vec)) and not isinstance(op, (ast.Is, ast.IsNot, ast.In, ast.NotIn)):
         if isinstance(a, Vec) and isinstance(b, Vec):
             return Vec(compare(I, op, x, y) for x, y in zip(a, b))
         if isinstance(a, Vec):
@@ -452,6 +459,15 @@ def subscript(I, base, key):
     raise AnalysisError(f"subscript of {base!r}")
 
 
+def _vflat(x):
+    if isinstance(x, Vec):
+        out = []
+        for i in x.items:
+            out.extend(_vflat(i))
+        return out
+    return [x]
+
+
 def value_attr(I, obj, name):
     """Attributes / methods of plain values."""
     if _alg(obj):
@@ -462,6 +478,12 @@ def value_attr(I, obj, name):
             return sp.im(e)
         if name == "conjugate":
             return Builtin("conjugate", lambda: sp.conjugate(e))
+        if name in ("flatten", "ravel"):
+            return Builtin(name, lambda: Vec([e]))      # a 0-d array flattens to one element
+        if name == "reshape":
+            return Builtin(name, lambda *sh: e)
+        if name == "shape":
+            return ()
         raise SymRaise("AttributeError", f"number has no attribute {name}")
     if isinstance(obj, dict):
         if name == "items":
@@ -523,6 +545,21 @@ def value_attr(I, obj, name):
             return r
         return Builtin(name, remeth)
     if isinstance(obj, Vec):
+        np_ = lambda fn: _math(I, fn)
+        if name == "flatten" or name == "ravel":
+            return Builtin(name, lambda: np_("reshape")(obj, (-1,)) if False else Vec(_vflat(obj)))
+        if name == "reshape":
+            return Builtin(name, lambda *sh: np_("reshape")(obj, sh[0] if len(sh) == 1 and isinstance(sh[0], (tuple, list)) else sh))
+        if name == "sum":
+            return Builtin(name, lambda axis=None: np_("sum")(obj, axis=axis))
+        if name == "shape":
+            return np_("shape")(obj)
+        if name == "T":
+            if obj.items and isinstance(obj.items[0], Vec):
+                return Vec(Vec(r.items[j] for r in obj.items) for j in range(len(obj.items[0])))
+            return obj
+        if name == "copy":
+            return Builtin(name, lambda: Vec(list(obj.items), obj.col))
         if name == "real":
             return Vec(sp.re(to_expr(x)) for x in obj)
         if name == "imag":
@@ -847,6 +884,12 @@ def external(I, dotted):
     return Builtin(dotted, opaque)
 
 
+def _tovec(x):
+    if isinstance(x, (list, tuple)):
+        return Vec(_tovec(i) for i in x)
+    return x
+
+
 def _math(I, name):
     m1 = lambda f: _map1(I, f)
     table = {
@@ -854,8 +897,8 @@ def _math(I, name):
         "expm1": m1(lambda x: sp.exp(x) - 1), "log10": m1(lambda x: sp.log(x, 10)),
         "cos": m1(sp.cos), "sin": m1(sp.sin), "radians": m1(lambda x: x * sp.pi / 180),
         "abs": m1(sp.Abs), "fabs": m1(sp.Abs), "floor": m1(sp.floor),
-        "asarray": lambda x, **k: x if not isinstance(x, (list, tuple)) else Vec(x),
-        "array": lambda x, **k: x if not isinstance(x, (list, tuple)) else Vec(x),
+        "asarray": lambda x, *a, **k: _tovec(x),
+        "array": lambda x, *a, **k: _tovec(x),
         "maximum": m1(lambda a, b: sp.Max(a, b)), "minimum": m1(lambda a, b: sp.Min(a, b)),
         "real": m1(sp.re), "imag": m1(sp.im),
     }
@@ -872,6 +915,12 @@ def _math(I, name):
         return lambda x: sp.Integer(1)
     if name == "sum":
         def npsum(x, axis=None):
+            if isinstance(x, Vec) and x.items and isinstance(x.items[0], Vec) and axis is not None:
+                ax = concrete_int(axis)
+                if ax == 0:
+                    ncol = len(x.items[0])
+                    return Vec(npsum(Vec(r.items[j] for r in x.items)) for j in range(ncol))
+                return Vec(npsum(r) for r in x.items)
             if isinstance(x, Vec):
                 if wdep(I, x) and axis is None:
                     raise SymRaise("ShapeError", "sum without axis reduces over the wavelength axis as well")
@@ -883,6 +932,67 @@ def _math(I, name):
                 return acc
             return to_expr(x)
         return npsum
+    def _shape(x):
+        if isinstance(x, Vec):
+            inner = _shape(x.items[0]) if x.items else ()
+            return (len(x.items),) + inner
+        return ()
+
+    def _flat(x):
+        if isinstance(x, Vec):
+            out = []
+            for i in x.items:
+                out.extend(_flat(i))
+            return out
+        return [x]
+
+    def _build(flat, shape):
+        if not shape:
+            if len(flat) != 1:
+                raise SymRaise("ValueError", "cannot reshape")
+            return flat[0]
+        n = shape[0]
+        if len(flat) % max(n, 1):
+            raise SymRaise("ValueError", "cannot reshape array")
+        step = len(flat) // n if n else 0
+        return Vec(_build(flat[i * step:(i + 1) * step], shape[1:]) for i in range(n))
+
+    def _toshape(sh):
+        sh = iterate(I, sh) if isinstance(sh, (tuple, list, Vec)) else [sh]
+        return tuple(concrete_int(x) for x in sh)
+
+    if name == "shape":
+        return lambda x: tuple(sp.Integer(n) for n in _shape(x if not isinstance(x, (list, tuple)) else Vec(x)))
+    if name == "reshape":
+        return lambda x, sh: _build(_flat(x), _toshape(sh))
+    if name == "diag":
+        def diag(x):
+            v = _flat(x)
+            return Vec(Vec(v[i] if i == j else sp.Integer(0) for j in range(len(v))) for i in range(len(v)))
+        return diag
+    if name == "dot":
+        def dot(a, b):
+            sa, sb = _shape(a), _shape(b)
+            if len(sa) == 2 and len(sb) == 2 and sa[1] == sb[0]:
+                return Vec(Vec(_dotsum(I, [a.items[i].items[k] for k in range(sa[1])], [b.items[k].items[j] for k in range(sa[1])])
+                               for j in range(sb[1])) for i in range(sa[0]))
+            if len(sa) == 1 and len(sb) == 1 and sa == sb:
+                return _dotsum(I, a.items, b.items)
+            if len(sa) == 1 and len(sb) == 2 and sa[0] == sb[0]:
+                return Vec(_dotsum(I, a.items, [b.items[k].items[j] for k in range(sb[0])]) for j in range(sb[1]))
+            if len(sa) == 2 and len(sb) == 1 and sa[1] == sb[0]:
+                return Vec(_dotsum(I, a.items[i].items, b.items) for i in range(sa[0]))
+            raise SymRaise("ValueError", f"shapes {sa} and {sb} not aligned")
+        return dot
+    if name == "outer":
+        return lambda a, b: Vec(Vec(binop(I, ast.Mult(), x, y) for y in _flat(b)) for x in _flat(a))
+    if name == "loadtxt":
+        def loadtxt(fn, skiprows=0, **k):
+            rows = I.loadtxt_data
+            return Vec(Vec(to_expr(c) for c in r) for r in rows)
+        return loadtxt
+    if name == "isnan":
+        return _map1(I, lambda x: sp.true if x is sp.nan else sp.false)
     if name == "diff":
         def npdiff(x):
             if not isinstance(x, Vec):
@@ -893,6 +1003,9 @@ def _math(I, name):
         return lambda x: Vec(list(reversed(x.items))) if isinstance(x, Vec) else x
     if name == "interp":
         def interp(x, xp, fp, left=None, right=None):
+            if isinstance(x, Vec):
+                return Vec(interp(e, xp, fp, left, right) for e in x)
+
             def sy(v, nm):
                 if v is None:
                     return sp.Symbol("clamp")
